@@ -9,7 +9,8 @@ pub struct C17;
 
 #[derive(Debug, Clone)]
 pub enum Body {
-    Files { patterns: Vec<String>, sep_newline: Vec<bool>, license: String, text: Option<Vec<String>>, marker: String },
+    /// odd_sep: which white space separates patterns that share a line: 0 blank, 1 tab, 2 two blanks, 3 U+000B, 4 U+00A0, 5 U+3000
+    Files { patterns: Vec<String>, sep_newline: Vec<bool>, license: String, text: Option<Vec<String>>, marker: String, odd_sep: u8 },
     License { name: String, text: Vec<String> },
 }
 
@@ -43,11 +44,13 @@ fn render(body: &[Body]) -> String {
     for b in body {
         t.push('\n');
         match b {
-            Body::Files { patterns, sep_newline, license, text, marker } => {
+            Body::Files { patterns, sep_newline, license, text, marker, odd_sep } => {
                 t.push_str("Files:");
                 for (i, p) in patterns.iter().enumerate() {
                     if i > 0 && sep_newline[i] {
                         t.push_str("\n ");
+                    } else if i > 0 {
+                        t.push_str([" ", "\t", "  ", "\u{b}", "\u{a0}", "\u{3000}"][*odd_sep as usize % 6]);
                     } else {
                         t.push(' ');
                     }
@@ -103,7 +106,7 @@ pub fn check(ctx: &mut Ctx, case: &Case) -> CheckResult {
             Ok(())
         }
         Case::Grid { pattern, path_len } => {
-            let body = vec![Body::Files { patterns: vec![pattern.clone()], sep_newline: vec![false], license: "L".into(), text: None, marker: "m0".into() }];
+            let body = vec![Body::Files { patterns: vec![pattern.clone()], sep_newline: vec![false], license: "L".into(), text: None, marker: "m0".into(), odd_sep: 0 }];
             let text = render(&body);
             let ll = lossless::Copyright::from_str(&text).map_err(|e| crate::Failure { assertion: "parse/lossless".into(), message: format!("{:?}: {}", text, e) })?;
             let ly = lossy::Copyright::from_str(&text).map_err(|e| crate::Failure { assertion: "parse/lossy".into(), message: format!("{:?}: {}", text, e) })?;
@@ -265,7 +268,7 @@ impl PropImpl for C17 {
          or the licence comes from the stand-alone fallback.".into()
     }
     fn expected_labels(&self) -> Vec<&'static str> {
-        vec!["lookup", "glob-grid", "not-machine-readable", "several-files-paragraphs-match", "no-paragraph-matches", "path-with-newline", "path-with-space", "deciding-pattern-has-escape", "deciding-pattern-has-regex-metacharacter", "licence-from-stand-alone-paragraph", "patterns-on-several-lines", "patterns-separated-by-space"]
+        vec!["lookup", "glob-grid", "not-machine-readable", "several-files-paragraphs-match", "no-paragraph-matches", "path-with-newline", "path-with-space", "deciding-pattern-has-escape", "deciding-pattern-has-regex-metacharacter", "licence-from-stand-alone-paragraph", "patterns-on-several-lines", "patterns-separated-by-space", "patterns-separated-by-other-white-space"]
     }
     fn budget(&self, tier: Tier) -> Budget {
         Budget { cases_per_lane: if tier == Tier::Quick { 3000 } else { 30_000 }, tape_max: 500, cpu_s: 20 }
@@ -306,7 +309,8 @@ impl PropImpl for C17 {
                     sep.push(t.chance(1, 3));
                 }
                 let text = if t.chance(1, 3) { Some(gen_text_lines(t)) } else { None };
-                body.push(Body::Files { patterns, sep_newline: sep, license: t.pick(&names).to_string(), text, marker: format!("marker-{}", k) });
+                let odd_sep = if t.chance(1, 8) { t.range(1, 5) as u8 } else { 0 };
+                body.push(Body::Files { patterns, sep_newline: sep, license: t.pick(&names).to_string(), text, marker: format!("marker-{}", k), odd_sep });
                 k += 1;
             }
         }
@@ -355,6 +359,7 @@ impl PropImpl for C17 {
                     }
                 }
                 ctx.label_if(body.iter().any(|b| matches!(b, Body::Files { sep_newline, .. } if sep_newline.iter().any(|x| *x))), "patterns-on-several-lines");
+                ctx.label_if(body.iter().any(|b| matches!(b, Body::Files { patterns, odd_sep, sep_newline, .. } if *odd_sep >= 3 && patterns.len() > 1 && sep_newline.iter().skip(1).any(|x| !*x))), "patterns-separated-by-other-white-space");
                 ctx.label_if(body.iter().any(|b| matches!(b, Body::Files { patterns, sep_newline, .. } if patterns.len() > 1 && sep_newline.iter().skip(1).any(|x| !*x))), "patterns-separated-by-space");
             }
         }
